@@ -1,3 +1,9 @@
 pub mod swiftness_fri {
 //@include fri/config.rs
+//@include fri/types.rs
+//@include fri/group.rs
+//@include fri/formula.rs
+//@include fri/layer.rs
+//@include fri/first_layer.rs
+//@include fri/last_layer.rs
 } // mod swiftness_fri
